@@ -115,7 +115,27 @@ func FindArmLoops(p *Prog, fn *ssa.Function) []*ArmLoop {
 			continue
 		}
 		call, ok := iff.Cond.(*ssa.Call)
-		if !ok || call.Block() != b {
+		if !ok {
+			// `for ok := true; ok; ok = r.Next() { … }`: the first iteration processes the operation
+			// the reader already stands on, Next is called at the end of every iteration
+			if phi, isPhi := iff.Cond.(*ssa.Phi); isPhi && phi.Block() == b && len(phi.Edges) == 2 {
+				var nx *ssa.Call
+				first := false
+				for _, e := range phi.Edges {
+					if c, isC := e.(*ssa.Const); isC && c.Value != nil && c.Value.String() == "true" {
+						first = true
+					} else if c2, isCall := e.(*ssa.Call); isCall && methodOn(&c2.Call, CommitPath, "Reader", "Next") {
+						nx = c2
+					}
+				}
+				if first && nx != nil {
+					call, ok = nx, true
+				}
+			}
+			if !ok {
+				continue
+			}
+		} else if call.Block() != b {
 			continue
 		}
 		// the loop is driven by Reader.Next, or by a helper that advances the reader itself and
